@@ -8,4 +8,5 @@
 //@include units/arrival_extrapolate.rs
 //@include units/arrival_cache.rs
 //@include units/arrival_prefix.rs
+//@include units/lemmas_arrival.rs
 fn main() {}
